@@ -2,9 +2,10 @@
 Profile (type/callee tables for the lowering) + sidecar contracts + harness list."""
 import re
 from tools.cxx2c import Lower, Unsupported, kids, qt, strip, callee_name, norm_type
+from tools.cxx2c import REPO as _REPO
 
 NAME = 'SIM'
-SRC = '/repo/src/bloch/runtime/qasm_simulator.cpp'
+SRC = _REPO + '/src/bloch/runtime/qasm_simulator.cpp'
 AST_FILTER = 'QasmSimulator'
 SHIM = 'sim.h'
 NAMESPACE = 'bloch::runtime'
